@@ -7,6 +7,8 @@ import (
 func RowQuery(db *gorm.DB) {
 	if db.Error == nil {
 		BuildQuerySQL(db)
+		// as after a query: the generated joins do not stay in the FROM clause of the statement
+		defer restoreFromJoins(db)
 		if db.DryRun || db.Error != nil {
 			return
 		}
